@@ -1,0 +1,7 @@
+//go:build verif
+
+package hevc
+
+//@ func ParseSliceHeader
+//@   ensures[C07] result1 == nil ==> result0 != nil && 1 <= result0.Size && int(result0.Size) <= len(nalu)
+//@   assigns nothing
